@@ -4,7 +4,6 @@ import (
 	"fmt"
 	"go/token"
 	"go/types"
-	"sort"
 	"strings"
 
 	"golang.org/x/tools/go/ssa"
@@ -511,7 +510,12 @@ func (fr *Frame) applyContract(st *State, ct *FnContract, callee *ssa.Function, 
 	pre := st.clone()
 	sc := &Scope{x: x, vars: names, st: pre, old: pre, pkg: pkg}
 	for i, cl := range ct.Requires {
-		g := sc.evalBool(cl.E)
+		gv, ok := sc.tryEval(cl.E)
+		if !ok {
+			c.Notes = append(c.Notes, fmt.Sprintf("%s: precondition %q of callee %s no longer evaluates; dropped at the call site (the callee is verified without it)", x.target, cl.Text, ct.Key))
+			continue
+		}
+		g := gv.T
 		nm := cl.Name
 		if nm == "" {
 			nm = fmt.Sprint(i + 1)
@@ -643,6 +647,8 @@ func (fr *Frame) callsiteSpecs(st *State, key string, callee *ssa.Function, args
 			nm = mangle(pat)
 		}
 		x.c.oblige(fmt.Sprintf("%s#call:%s", x.target, nm), "call", x.target, "callsite "+cs.Callee+" "+cs.Clause.Text, fr.pos(pos), st.Reach, g, x.topReqs)
+		// once checked, the fact may be used by what follows (cut)
+		x.c.assume(implies(st.Reach, g))
 	}
 }
 
@@ -812,51 +818,16 @@ func (fr *Frame) appendOp(st *State, v ssa.Value, cc *ssa.CallCommon, args []str
 	if v != nil {
 		fr.env[v] = r
 	}
-	sorts := x.leafSorts(elem, nil)
-	_, isStruct := elem.Underlying().(*types.Struct)
-	_, isArr := elem.Underlying().(*types.Array)
-	if len(sorts) == 1 && !isStruct && !isArr {
-		for srt := range sorts {
-			key := "H:" + srt
-			h0 := x.get(st, key)
-			h1 := c.freshConst(mangle(key)+"_app", x.compSort(key))
-			l := c.fresh("l")
-			c.assume(fmt.Sprintf("(forall ((%s Loc)) (! (=> (not (= (ref %s) (ref %s))) (= (select %s %s) (select %s %s))) :pattern ((select %s %s))))", l, l, arr, h1, l, h0, l, h1, l))
-			i := c.fresh("i")
-			var src string
-			if _, isStr := cc.Args[1].Type().Underlying().(*types.Basic); isStr {
-				src = sx("s_at", t, x.subIdx(i, sl))
-			} else {
-				src = sx("select", h0, x.sliceElt(t, x.subIdx(i, sl)))
-			}
-			c.assume(fmt.Sprintf("(forall ((%s %s)) (! (=> (and %s %s) (= (select %s %s) (ite %s (select %s %s) %s))) :pattern ((select %s %s))))",
-				i, c.idxSort(), x.leIdx(c.idx(0), i), x.ltIdx(i, nl), h1, elt(arr, i), x.ltIdx(i, sl), h0, x.sliceElt(s, i), src, h1, elt(arr, i)))
-			st.Comp[key] = h1
+	_, tIsStr := cc.Args[1].Type().Underlying().(*types.Basic)
+	x.bulkWrite(st, elem, arr, c.idx(0), nl, func(i string, lp leafPath, pre map[string]string) string {
+		var src string
+		if tIsStr {
+			src = sx("s_at", t, x.subIdx(i, sl))
+		} else {
+			src = x.sliceLeaf(t, x.subIdx(i, sl), lp, pre)
 		}
-		return
-	}
-	// struct elements: havoc the element sorts at the new array only (frame for everything else)
-	var ks []string
-	for srt := range sorts {
-		ks = append(ks, srt)
-	}
-	sort.Strings(ks)
-	single := c.define("one", "Bool", eq(tl, c.idx(1)))
-	for _, srt := range ks {
-		key := "H:" + srt
-		h0 := x.get(st, key)
-		h1 := c.freshConst(mangle(key)+"_app", x.compSort(key))
-		l := c.fresh("l")
-		c.assume(fmt.Sprintf("(forall ((%s Loc)) (! (=> (not (= (ref %s) (ref %s))) (= (select %s %s) (select %s %s))) :pattern ((select %s %s))))", l, l, arr, h1, l, h0, l, h1, l))
-		st.Comp[key] = h1
-	}
-	// element-wise facts for the common single-element append: new[len(s)] == t[0], new[i] == s[i] for constant-small i are
-	// given through loads on demand: assert equality of the last element as a struct value
-	lastNew := x.load(st, elem, elt(arr, sl))
-	pre := &State{Reach: st.Reach, Gen: fr.entry.Gen, Comp: map[string]string{}}
-	_ = pre
-	_ = single
-	_ = lastNew
+		return ite(x.ltIdx(i, sl), x.sliceLeaf(s, i, lp, pre), src)
+	})
 }
 
 func (fr *Frame) copyOp(st *State, v ssa.Value, cc *ssa.CallCommon, args []string) {
@@ -876,42 +847,16 @@ func (fr *Frame) copyOp(st *State, v ssa.Value, cc *ssa.CallCommon, args []strin
 		fr.env[v] = n
 	}
 	elem := cc.Args[0].Type().Underlying().(*types.Slice).Elem()
-	ii, isInt := basicInt(elem)
-	if !isInt || ii.w != 8 || c.Int {
+	if srcStr && c.Int {
 		x.havocSorts(st, x.leafSorts(elem, nil))
 		return
 	}
-	key := "H:(_ BitVec 8)"
-	h0 := x.get(st, key)
-	// statically bounded destination (slice of a fixed array): unroll
-	if bound, ok := staticSliceLen(cc.Args[0]); ok && bound <= maxArrayExpand {
-		h := h0
-		for k := int64(0); k < bound; k++ {
-			ki := c.idx(k)
-			var sv string
-			if srcStr {
-				sv = sx("s_at", src, ki)
-			} else {
-				sv = sx("select", h0, x.sliceElt(src, ki))
-			}
-			h = sx("store", h, x.sliceElt(dst, ki), ite(x.ltIdx(ki, n), sv, sx("select", h0, x.sliceElt(dst, ki))))
+	x.bulkWrite(st, elem, sx("sl_arr", dst), sx("sl_off", dst), n, func(i string, lp leafPath, pre map[string]string) string {
+		if srcStr {
+			return sx("s_at", src, i)
 		}
-		x.set(st, key, h)
-		return
-	}
-	h1 := c.freshConst("H_copy", x.compSort(key))
-	l := c.fresh("l")
-	c.assume(fmt.Sprintf("(forall ((%s Loc)) (! (=> (not (= (ref %s) (ref (sl_arr %s)))) (= (select %s %s) (select %s %s))) :pattern ((select %s %s))))", l, l, dst, h1, l, h0, l, h1, l))
-	i := c.fresh("i")
-	var sv string
-	if srcStr {
-		sv = sx("s_at", src, i)
-	} else {
-		sv = sx("select", h0, x.sliceElt(src, i))
-	}
-	c.assume(fmt.Sprintf("(forall ((%s %s)) (! (=> (and %s %s) (= (select %s %s) %s)) :pattern ((select %s %s))))",
-		i, c.idxSort(), x.leIdx(c.idx(0), i), x.ltIdx(i, n), h1, x.sliceElt(dst, i), sv, h1, x.sliceElt(dst, i)))
-	st.Comp[key] = h1
+		return x.sliceLeaf(src, i, lp, pre)
+	})
 }
 
 // length of a slice expression when statically known (slice of *[N]T with constant bounds)
